@@ -55,6 +55,27 @@ def rule_dep_on_read(cx, fb):
               "a path returns to the caller after consulting the source table without registering a dependency "
               "(a memoized caller that observed this read is not invalidated when the source appears/changes)",
               f.loc(), detail="path " + fmt_path(f, p) if p else None)
+    # the epoch stamped on a registered observation is a real one (a node's time_updated, the current epoch
+    # or a fold of dependency times) - never the initial epoch `Epoch::new()`: an observation dated "at the
+    # beginning of time" lets a changed reader's time_updated move backwards past its dependents' records
+    n_reg = 0
+    for f in pico:
+        if f.id in verification and f.name != "execute_memoized_function":
+            continue
+        for t in f.calls():
+            if not term_calls(t, r"Storage::<Db>::register_dependency_in_parent_memoized_fn$|StorageDyn::register_dependency_in_parent_memoized_fn$"):
+                continue
+            if f.name == "register_dependency_in_parent_memoized_fn":
+                continue
+            n_reg += 1
+            a = op_place(t.args[2])
+            fresh = a is None or local_flows_from(
+                f, a.local, lambda d: not hasattr(d, "rv") and term_calls(d, r"epoch::Epoch::new$"), depth=4) is not None
+            cx.ob("R01.observation-epoch", "%s|L-arg-not-initial-epoch|%d" % (f.id, sum(1 for x in f.calls() if x.bb < t.bb and term_calls(x, r"register_dependency_in_parent_memoized_fn$"))),
+                  not fresh, "a dependency is registered with the initial epoch as its time_updated: a reader whose "
+                  "value changes because of this observation gets a time_updated older than what its dependents "
+                  "recorded, so they keep stale results", f.loc(t.line))
+    cx.floor("R01.observation-epoch registration sites", n_reg, 6)
     # other dependency-producing reads
     targets = [r"pico::memo_ref::MemoRef::<T>::lookup_tracked$", r"pico::database::intern_value$",
                r"pico::database::intern_ref$", r"pico::execute_memoized_function::execute_memoized_function$"]
